@@ -422,4 +422,33 @@ PROPS = {
         "level_text": "Held on the completion requests observed, known findings aside.",
         "level_note": "Trusted: the harness's reading of which names are visible/entered.",
     },
+    "C15": {
+        "cases": {"quick": 320, "thorough": 12000},
+        "rule": "Per case one random definition (completers with descriptions and groups, "
+                "complete_shell File/Dir/Raw/Nothing with masks, group_help, commands) whose help, "
+                "group and mask strings carry quotes, backslashes, `$(canary)`, backticks, `;`, "
+                "`>`; partially typed lines whose last word comes from a hostile pool (command "
+                "substitution, `;`, `|`, `&&`, redirection, newline, quotes, globs, non-ASCII). "
+                "For each line revisions 1/7/8/9 are rendered with and without application name. "
+                "Bash and zsh output is executed in a sandboxed bash (recording stubs, empty PATH, "
+                "command_not_found_handle, canaries, scratch directory) and the recovered "
+                "COMPREPLY/compadd/_filedir/_files data is compared with the revision-0 "
+                "candidates and completers (each exactly once); fish/elvish output is compared "
+                "line by line. evaluations = scripts judged. " + DISTINCT,
+        "assumptions": COMMON_ASSUMPTIONS + [
+            "zsh, fish and elvish are not installed: zsh directives (compadd, _files, local -a, "
+            "descr=(..)) are executed under bash with stubs - they use only single-quote quoting, "
+            "which bash lexes identically; fish/elvish line protocols are lexed.",
+            "ShellComp::Raw strings are shell code supplied by the author and are kept valid.",
+        ],
+        "must_observe": ["rev:1", "rev:7", "rev:8", "rev:9", "scripts_executed_in_bash",
+                         "shape:echo-typed-word", "shape:candidates",
+                         "shape:candidates+completer"],
+        "technique": "runtime monitoring: the emitted directives are executed by a real, "
+                     "sandboxed bash with recording stubs and canaries (output-protocol monitor), "
+                     "plus line/field lexers for fish and elvish",
+        "level_text": "Held on the scripts executed/lexed, known findings aside.",
+        "level_note": "Trusted: bash as the interpreter of both bash and zsh directives; the "
+                      "expected effects are derived from bpaf's own revision-0 candidate list.",
+    },
 }
